@@ -22,7 +22,12 @@ impl InstructionGenerator {
     /// Evaluate SELECT CASE x into A
     fn generate_eval_select_case_expr(&mut self, expr: ExpressionPos, pos: Position) {
         self.generate_expression_instructions(expr);
+        // RESUME NEXT after a failing SELECT CASE expression continues here,
+        // so that the value stack still gets the entry that END SELECT pops
+        self.mark_statement_address();
         self.push(Instruction::PushAToValueStack, pos);
+        // the CASE expressions are evaluated with the SELECT CASE expression on the value stack
+        self.mark_statement_address();
     }
 
     fn generate_case_blocks(&mut self, case_blocks: Vec<CaseBlock>, has_else: bool, pos: Position) {
